@@ -386,8 +386,10 @@ def extras(run, scratch, n):
     events = harness_trace(scratch, "extra", "extra", ["--seed", run.seed, "--n", n])
     panicked = [e for e in events if e.get("panic")]
     events = [e for e in events if not e.get("panic")]
-    canary = _copy.deepcopy(next(e for e in events if e["t"] == "display" and e["text"]))
-    canary["text"] = canary["text"] + [33]
+    # the canary is a full_method event: whether a display event is constrained depends on the written file being
+    # well-formed, which is the subject of the property being checked
+    canary = _copy.deepcopy(next(e for e in events if e["t"] == "full_method"))
+    canary["got"] = list(canary["got"]) + [33]
     path = scratch.path("trace-Trace_Extra.ndjson")
     write_ndjson(path, events + [canary])
     r = run_tlc(scratch, "Trace_Extra", workers=10, timeout=1800, env={"TRACE": path}, capture_prefix="")
@@ -447,6 +449,8 @@ def c03(run, scratch):
     retrace_mc(run, scratch, "blocks_thorough" if t else "blocks_quick", "params", workers=14 if t else 10)
     retrace_mc(run, scratch, "records_thorough" if t else "records_quick", "params", workers=14 if t else 10)
     retrace_mc(run, scratch, "ranges_thorough" if t else "ranges_quick", "params", workers=14 if t else 10)
+    # entries with and without a foreign original class in one (name, arguments) bucket, in every order
+    retrace_mc(run, scratch, "ambig_thorough" if t else "ambig_quick", "params", workers=14 if t else 10)
     retrace_trace(run, scratch, "Trace_Retrace_params", "params", 200 if t else 40, 300 if t else 120, SMALL_CORPUS,
                   workers=14 if t else 10)
     run.exhaustive = False
@@ -903,6 +907,13 @@ def c12(run, scratch):
                                 signature=lambda ev: {"what": ev["what"],
                                                       "detail": sorted({c.get("detail", "") for c in ev["calls"] if c["status"] != "ok"})})
     run.steps[-1]["buffers_accepted_by_parse"] = len(acc)
+    # the text entry points of a parsed cache (signatures, stack traces) on bounded-exhaustive token strings over the
+    # delimiters and multi-byte characters: every call completes
+    soup = harness_trace(scratch, "soup", "soup", ["--depth", 6 if t else 5])
+    run.evaluations += sum(e["tried"] for e in soup)
+    validate_pure_trace(run, scratch, "Trace_Soup", "Trace_Retrace", soup, workers=4, timeout=1200,
+                        corrupt=lambda ev: dict(ev, failing=[{"arg": [120], "what": "canary"}]),
+                        signature=lambda ev: {"api": ev.get("api"), "failing": [b2s(f["arg"]) + ": " + f["what"] for f in ev.get("failing", [])][:3]})
     # damaged and torn copies inside whole programs (System.tla): an accepted damaged file has to answer, a panic
     # anywhere in a program is reported
     system_programs(run, scratch, "torn", 6 if t else 5)
